@@ -19,6 +19,7 @@ StepComplaints(prev, next, i) ==
                (IF p.hasPrivate /\ p.keyId # "" /\ ~(n.hasPrivate /\ n.keyId = p.keyId) THEN {"the stored private key did not stay the same key"} ELSE {})
           \cup (IF p.hasRequest /\ ~p.hasPrivate /\ p.keyId # "" /\ ~(n.hasRequest /\ ~n.hasPrivate /\ n.keyId = p.keyId)
                 THEN {"a request-based entity lost its request or got a private key"} ELSE {})
+          \cup (IF p.hasRequest /\ ~p.hasPrivate /\ n.hasRequest /\ n.reqSha # p.reqSha THEN {"the request in the file is not the request that was there (its octets changed)"} ELSE {})
           \cup (IF n.hasCert /\ n.keyId # "" /\ n.certKeyId # n.keyId THEN {"the certificate does not carry the public key of the stored key material"} ELSE {})
           \cup (IF next.result = "ok" /\ n.hasCert /\ ~n.sigOk THEN {"after a successful run the certificate does not verify under its issuer's certificate"} ELSE {})
           \cup (IF next.result = "panic" THEN {"panic"} ELSE {}) }
